@@ -206,7 +206,11 @@ fn gen_c04_inner(r: &mut Rng, tier: Tier, job: u64, force: Option<(u64, i64)>) -
     // one text job in five leaves the giant row as the last one, written cell by cell and not
     // ended by the shim (finish()/drop ends it) -- mostly at the exact multiple
     let open_last = r.chance(1, 5);
-    let d: i64 = if r.chance(1, 4) || (open_last && r.chance(3, 4)) { 0 } else { r.irange(-6, 6) };
+    // one row job in three puts small rows in front of the giant one, as many as it takes for the
+    // sequence id of its last full packet to be 255, 0 or 254: the id wraps right where the
+    // terminating (possibly empty) packet is owed
+    let align: Option<u8> = if r.chance(1, 3) { Some(*r.pick(&[255u8, 255, 255, 0, 254])) } else { None };
+    let d: i64 = if r.chance(1, 4) || (open_last && r.chance(3, 4)) || (align.is_some() && r.chance(2, 3)) { 0 } else { r.irange(-6, 6) };
     let d = force.map(|f| f.1).unwrap_or(d);
     let target = (k * U24) as i64 + d; // logical message length
     let variant = if tier == Tier::Thorough { r.below(12) } else { job % 12 };
@@ -254,18 +258,37 @@ fn gen_c04_inner(r: &mut Rng, tier: Tier, job: u64, force: Option<(u64, i64)>) -
             second[0] = small_row_text[0].clone();
             // the giant row first, in the middle, or last (then possibly left for finish() /
             // drop to end: the terminating empty packet of an exact multiple is owed all the same)
-            let rows = match if open_last { 2 } else { r.below(3) } {
+            let mut rows = match if open_last { 2 } else { r.below(3) } {
                 0 => vec![big, second],
                 1 => vec![second.clone(), big, second],
                 _ => vec![second, big],
             };
+            let mut aligned = false;
+            if let Some(want) = align {
+                let full = target as u64 / U24;
+                if full >= 1 {
+                    // ids of a COM_QUERY response: count 1, definitions 2..=1+n, EOF 2+n, rows from 3+n
+                    let pos = rows.iter().position(|rw| rw.iter().any(|c| matches!(c, Cell::Bytes(Blob::Gen { .. }) | Cell::VecBytes(Blob::Gen { .. })))).unwrap_or(0) as u64;
+                    let last_full = 3 + lens.len() as u64 + pos + full - 1;
+                    let lead = (want as u64 + 512 - last_full % 256) % 256;
+                    let filler = rows.iter().find(|rw| !rw.iter().any(|c| matches!(c, Cell::Bytes(Blob::Gen { .. }) | Cell::VecBytes(Blob::Gen { .. })))).cloned();
+                    if let Some(f) = filler {
+                        for _ in 0..lead {
+                            rows.insert(0, f.clone());
+                        }
+                        aligned = true;
+                    }
+                }
+            }
             // one job in ten: the giant record is one value short, is refused, and the shim skips
             // it and carries on (if the tree lets it, the client is owed the other rows intact --
             // full packets of the refused row have long left by then)
             let skip_giant = !open_last && lens.len() >= 2 && r.chance(1, 10);
             let giant_at = rows.iter().position(|rw| rw.iter().any(|c| matches!(c, Cell::Bytes(Blob::Gen { .. }) | Cell::VecBytes(Blob::Gen { .. })))).unwrap_or(0) as u32;
             cmds.push(Cmd {
-                seq: {
+                seq: if aligned {
+                    0
+                } else {
                     let c = r.coin();
                     gen_seq(r, c)
                 },
@@ -331,7 +354,19 @@ fn gen_c04_inner(r: &mut Rng, tier: Tier, job: u64, force: Option<(u64, i64)>) -
                 .collect();
             let mut second = vec![Cell::Null(0); lens.len()];
             second[0] = Cell::Bytes(Blob::lit(b"after"));
-            let rows = vec![big, second];
+            let mut rows = vec![big, second.clone()];
+            let mut aligned = false;
+            if let Some(want) = align {
+                let full = target as u64 / U24;
+                if full >= 1 {
+                    let last_full = 3 + lens.len() as u64 + full - 1;
+                    let lead = (want as u64 + 512 - last_full % 256) % 256;
+                    for _ in 0..lead {
+                        rows.insert(0, second.clone());
+                    }
+                    aligned = true;
+                }
+            }
             cmds.push(Cmd {
                 seq: 0,
                 kind: CmdKind::Prepare(Blob::lit(b"p")),
@@ -342,7 +377,9 @@ fn gen_c04_inner(r: &mut Rng, tier: Tier, job: u64, force: Option<(u64, i64)>) -
                 }),
             });
             cmds.push(Cmd {
-                seq: {
+                seq: if aligned {
+                    0
+                } else {
                     let c = r.coin();
                     gen_seq(r, c)
                 },
@@ -856,7 +893,7 @@ fn c15_plan(cells: Vec<(Cell, u8, bool)>, r: &mut Rng) -> Plan {
             act: Act::Prepare(PrepAct::Reply {
                 id: 1,
                 params: vec![],
-                cols: cols.clone(),
+                cols: announce_cols(r, &cols),
             }),
         },
         Cmd {
